@@ -10,6 +10,14 @@ impl SrtlaConnection {
     pub fn register_packet(&mut self, seq: i32, send_time_ms: u64) {
         self.packet_log.insert(seq, send_time_ms);
         self.in_flight_packets = self.packet_log.len() as i32;
+        // A sequence at or below the cumulative-ACK high-water mark (an SRT
+        // retransmission racing an ACK that already passed it) would otherwise be
+        // skipped by `handle_srt_ack`, which only visits `(highest_acked_seq, ack]`.
+        // Pull the mark back below it so the next ACK at or beyond `seq` retires it
+        // and the log never holds an entry at or below the mark.
+        if seq <= self.highest_acked_seq {
+            self.highest_acked_seq = seq.saturating_sub(1);
+        }
     }
 
     /// Handle SRT cumulative ACK - clears all packets with seq <= ack.
